@@ -1,8 +1,10 @@
 #!/usr/bin/env python3
 """Kani runner: compiles the real crate in place (cd $VERIF_REPO; cargo kani) and runs the registered harnesses.
-One build per source-tree hash; results cached by (tree hash, harness); a file lock serialises cargo-kani runs
-on the shared target dir (two concurrent runs stall on the cargo lock)."""
+One build per source-tree hash; results cached by (tree hash, harness); every tree under check has its own target
+directory (treecache.py) and a file lock serialises cargo-kani runs on it."""
 import os, sys, json, re, subprocess, time, hashlib, fcntl
+sys.path.insert(0, os.path.dirname(os.path.abspath(__file__)))
+import treecache
 HERE = os.path.dirname(os.path.dirname(os.path.abspath(__file__)))
 REPO = os.environ.get('VERIF_REPO', '/repo')
 CACHE = os.environ.get('VERIF_KANI_CACHE', os.path.join(HERE, '.cache'))
@@ -88,10 +90,10 @@ def run_harnesses(names, timeout_s=900, extra=None):
             todo.append(n)
     cmd = None
     if todo:
-        lock = open(os.path.join(CACHE, 'kani.lock'), 'w')
+        lock = open(os.path.join(CACHE, f'kani-{treecache.tag(REPO)}.lock'), 'w')
         fcntl.flock(lock, fcntl.LOCK_EX)
         try:
-            cmd = ['cargo', 'kani', '--target-dir', os.path.join(CACHE, 'kani-target'), '-Z', 'function-contracts', '-Z', 'stubbing',
+            cmd = ['cargo', 'kani', '--target-dir', treecache.dir_for('kani-target', REPO), '-Z', 'function-contracts', '-Z', 'stubbing',
                    '-Z', 'unstable-options', '--output-format', 'terse', '-j', '8', '--harness-timeout', '10m', '--exact']
             for n in todo:
                 cmd += ['--harness', MODPATH + n]
@@ -124,7 +126,7 @@ def run_harnesses(names, timeout_s=900, extra=None):
 
 def playback(name):
     """Re-run a failing harness with concrete playback and return the printed test (byte vectors per kani::any())."""
-    cmd = ['cargo', 'kani', '--target-dir', os.path.join(CACHE, 'kani-target'), '-Z', 'function-contracts', '-Z', 'stubbing',
+    cmd = ['cargo', 'kani', '--target-dir', treecache.dir_for('kani-target', REPO), '-Z', 'function-contracts', '-Z', 'stubbing',
            '-Z', 'concrete-playback', '--concrete-playback=print', '--exact', '--harness', MODPATH + name]
     env = dict(os.environ, CARGO_NET_OFFLINE='true', RUSTFLAGS='--cfg tokio_unstable')
     try:
